@@ -14,6 +14,7 @@
 //	normal    control: a plain run                                   (steps + handlers run, one history file)
 //	bindfail  the socket path cannot be bound                        (run recorded, nothing executed)
 //	retry     (only when named) a failed / stopped run read back from the history store and retried with a new request id (C10)
+//	frozen    (only when named) the socket is held by a listener that never answers (a frozen first run): the probe times out (C16)
 //	race      (only when named) the former probe/bind race (F16a): one agent held inside its locked section, a second started meanwhile (C16)
 //
 // default: all.  One JSON object per line, see type Case.  `log` is the ordered list of what the agent did:
@@ -27,6 +28,7 @@ import (
 	"errors"
 	"fmt"
 	"io"
+	"net"
 	"os"
 	"path/filepath"
 	"sort"
@@ -68,29 +70,30 @@ type Obs struct {
 }
 
 type Case struct {
-	K            int       `json:"k"`
-	Class        string    `json:"class"`
-	Sub          string    `json:"sub"`
-	Steps        []StepJ   `json:"steps"`
-	Handlers     []string  `json:"handlers"`
-	Dry          bool      `json:"dry"`
-	SecondPath   string    `json:"second_path"` // class running: the spelling of the DAG file's path given to the second run ("" = clean)
-	HasPre       bool      `json:"has_pre"`
-	PrePattern   string    `json:"pre_pattern"` // the DAG's preconditions in order: M = met, U = unmet
-	PreOk        bool      `json:"pre_ok"`
-	Retry        bool      `json:"retry"`         // the observed run is a retry (Options.RetryTarget set)
-	Running      bool      `json:"probe_running"` // another agent of the same DAG file was active when this run started
-	BindOk       bool      `json:"bind_ok"`
-	Obs                    // the observed run (for class running: the SECOND run)
-	First        *Obs      `json:"first,omitempty"`         // class running: the first run, after it finished
-	StatusBefore string    `json:"status_before,omitempty"` // class running: endpoint answer before / after the second attempt
-	StatusAfter  string    `json:"status_after,omitempty"`
-	HistDuring   int       `json:"hist_during"`         // class running: history files while the first was active, after the second attempt
-	Retry2       *RetryObs `json:"retry_obs,omitempty"` // class retry
-	BothActive   bool      `json:"both_active"`         // class race: A and B were inside a step at the same time
-	BWaited      bool      `json:"b_waited"`            // class race: B did nothing while A was inside its locked section
-	Others       []*Obs    `json:"others,omitempty"`    // class race: the runs B and C
-	Infra        string    `json:"infra,omitempty"`     // the driver itself failed (not an observation)
+	K              int       `json:"k"`
+	Class          string    `json:"class"`
+	Sub            string    `json:"sub"`
+	Steps          []StepJ   `json:"steps"`
+	Handlers       []string  `json:"handlers"`
+	Dry            bool      `json:"dry"`
+	SecondPath     string    `json:"second_path"` // class running: the spelling of the DAG file's path given to the second run ("" = clean)
+	HasPre         bool      `json:"has_pre"`
+	PrePattern     string    `json:"pre_pattern"` // the DAG's preconditions in order: M = met, U = unmet
+	PreOk          bool      `json:"pre_ok"`
+	Retry          bool      `json:"retry"`         // the observed run is a retry (Options.RetryTarget set)
+	Running        bool      `json:"probe_running"` // another agent of the same DAG file was active when this run started
+	BindOk         bool      `json:"bind_ok"`
+	Obs                      // the observed run (for class running: the SECOND run)
+	First          *Obs      `json:"first,omitempty"`         // class running: the first run, after it finished
+	StatusBefore   string    `json:"status_before,omitempty"` // class running: endpoint answer before / after the second attempt
+	StatusAfter    string    `json:"status_after,omitempty"`
+	HistDuring     int       `json:"hist_during"`         // class running: history files while the first was active, after the second attempt
+	Retry2         *RetryObs `json:"retry_obs,omitempty"` // class retry
+	EndpointIntact bool      `json:"endpoint_intact"`     // class frozen: the socket path still leads to the listener that held it
+	BothActive     bool      `json:"both_active"`         // class race: A and B were inside a step at the same time
+	BWaited        bool      `json:"b_waited"`            // class race: B did nothing while A was inside its locked section
+	Others         []*Obs    `json:"others,omitempty"`    // class race: the runs B and C
+	Infra          string    `json:"infra,omitempty"`     // the driver itself failed (not an observation)
 }
 
 // ---------------------------------------------------------------------------------------------
@@ -894,6 +897,58 @@ func race(k int, rng *vh.Rng, work string, save bool) Case {
 	return c
 }
 
+// class frozen: the DAG's socket is held by a listener that accepts connections and never answers - what a first run whose
+// process is alive but frozen (SIGSTOP) looks like to the "already running?" probe.  The probe times out; the start must be
+// refused with an error, record nothing, execute nothing and leave the socket alone.
+func frozen(k int, rng *vh.Rng, work string) Case {
+	c := Case{K: k, Class: "frozen", Sub: "probe-timeout", Running: true}
+	s := &spec{dir: filepath.Join(work, fmt.Sprintf("c%d", k)), name: fmt.Sprintf("d%d", k), modes: map[string]string{}}
+	s.steps, s.handlers = validSteps(rng), someHandlers(rng)
+	fill(&c, s)
+	r, err := prepare(s, fmt.Sprintf("t%d", k), &agent.Options{})
+	if err != nil {
+		c.Infra = err.Error()
+		return c
+	}
+	addr := r.wf.SockAddr()
+	_ = os.Remove(addr)
+	ln, err := net.Listen("unix", addr)
+	if err != nil {
+		c.Infra = "listen: " + err.Error()
+		return c
+	}
+	var held []net.Conn
+	var hmu sync.Mutex
+	go func() {
+		for {
+			conn, err := ln.Accept()
+			if err != nil {
+				return
+			}
+			hmu.Lock()
+			held = append(held, conn) // accepted, never answered
+			hmu.Unlock()
+		}
+	}()
+	r.run()
+	c.Obs = r.obs
+	// is the frozen run's endpoint still there?  (a connection to the path still reaches our listener)
+	before := func() int { hmu.Lock(); defer hmu.Unlock(); return len(held) }()
+	if conn, err := net.DialTimeout("unix", addr, time.Second); err == nil {
+		_ = conn.Close()
+		time.Sleep(20 * time.Millisecond)
+		c.EndpointIntact = func() int { hmu.Lock(); defer hmu.Unlock(); return len(held) }() > before
+	}
+	_ = ln.Close()
+	hmu.Lock()
+	for _, x := range held {
+		_ = x.Close()
+	}
+	hmu.Unlock()
+	_ = os.Remove(addr)
+	return c
+}
+
 // RecordJ is a run as read back from the history store (FindByRequestID, as cmd/retry.go does).
 type RecordJ struct {
 	Found     bool    `json:"found"`
@@ -1073,6 +1128,9 @@ func main() {
 	if want["retry"] { // only on request (C10)
 		add(10*mult, func(k int, rng *vh.Rng) Case { return retryCase(k, rng, work, "fail") })
 		add(6*mult, func(k int, rng *vh.Rng) Case { return retryCase(k, rng, work, "stop") })
+	}
+	if want["frozen"] { // only on request (C16); each case lasts the probe's 3 s timeout
+		add(3*mult, func(k int, rng *vh.Rng) Case { return frozen(k, rng, work) })
 	}
 	if want["race"] { // only on request (C16)
 		add(4*mult, func(k int, rng *vh.Rng) Case { return race(k, rng, work, false) })
